@@ -7,6 +7,10 @@ model-generated expectation) and shows that the same TLC run now rejects it, nam
                                                 the reported memory is changed        -> MemExact
   3. ScanConc behaviour as a LinTrace history:  an item is dropped from a scan result -> RangeStable
   4. CacheConc.tla with SplitRemove = TRUE (the design mutation) must violate NoFlags
+  5. write-behind handshake (TraceCoord.tla):   a publication event is removed          -> NothingLost / ConservationT
+                                                a drain reports one entry less          -> DrainAll
+                                                a publication moves behind a flush Ok   -> AckCoversAll
+  6. Coord.tla: each of the six switch mutations must violate its property
 Exit 0 when every corruption is rejected (and every original accepted), 2 otherwise (a selftest never prints VIOLATION)."""
 import json
 import os
@@ -107,5 +111,43 @@ def run(seed):
     rm, _, _, _ = c16_cache.run_cache_model("quick", seed, rd, fxv, split_remove=True, emit_one_in=1000000, timeout=300)
     r4, _, _, _ = c16_cache.run_cache_model("quick", seed, rd, fxv, split_remove=False, emit_one_in=1000000, timeout=900)
     report("CacheConc.tla: SplitRemove = TRUE", not r4.violation and not r4.error, rm.violation)
+    # ---- 5. the write-behind handshake (TraceCoord.tla): one recorded fact corrupted at a time
+    import coordengine as co
+    raw = os.path.join(rd, "self_coord.raw.ndjson")
+    rc, so, se2 = v.run_cmd([fxv, "coord", "--kind", "mixed", "--cpus", "4", "--seed", str(seed + 11), "--steps", "50", "--out", raw,
+                             "--dir", v.shm_dir("selfcoord")], timeout=240)
+    if rc != 0:
+        raise v.ToolError("fxv coord failed in the selftest: " + se2[-300:])
+    t0 = os.path.join(rd, "coord_self.ndjson")
+    co.rename(raw, t0)
+    lines = open(t0).read().splitlines()
+
+    def coord_run(ls, tag):
+        t = os.path.join(rd, "coord_self_%s.ndjson" % tag)
+        open(t, "w").write("\n".join(ls) + "\n")
+        return v.run_tlc("TraceCoord", "TraceCoord.cfg", os.path.join(rd, "tlc_coord_" + tag), workers=1, timeout=300,
+                         env_extra={"TRACE": t}, coverage=False, xmx="2g")
+    c0 = coord_run(lines, "orig")
+    acc = not c0.violation and not c0.error
+    i, e = _first(lines, lambda e: e.get("e") == "pub")
+    c1 = coord_run(lines[:i] + lines[i + 1:], "nopub")
+    report("TraceCoord: one publication event removed (hook dropped)", acc, c1.violation)
+    i, e = _first(lines, lambda e: e.get("e") == "drain" and e.get("n", 0) >= 2)
+    e2 = dict(e, n=e["n"] - 1)
+    c2 = coord_run(lines[:i] + [json.dumps(e2)] + lines[i + 1:], "drain")
+    report("TraceCoord: a drain reports one entry less than the shard held", acc, c2.violation)
+    i, e = _first(lines, lambda e: e.get("e") == "flush_end" and e.get("ok") == 1)
+    j = max(k for k in range(i) if json.loads(lines[k]).get("e") == "flush_begin" and json.loads(lines[k]).get("c") == e["c"])
+    # an entry enqueued before that flush began, whose publication is moved behind the acknowledgement
+    k, pe = _first(lines[:j], lambda x: x.get("e") == "enq" and x.get("k") == "W")
+    pi, pev = _first(lines, lambda x: x.get("e") in ("pub", "skip") and x.get("id") == pe["id"])
+    if pi is not None and pi < i:
+        moved = lines[:pi] + lines[pi + 1:i + 1] + [lines[pi]] + lines[i + 1:]
+        c3 = coord_run(moved, "ack")
+        report("TraceCoord: a publication moved behind the flush acknowledgement", acc, c3.violation)
+    # ---- 6. the design mutations of Coord.tla
+    for m in co.MUTS:
+        rmu = v.run_tlc("MCCoord", "MCCoord_mut_%s.cfg" % m, os.path.join(rd, "coordmc"), workers=4, timeout=900, coverage=False, xmx="8g")
+        report("Coord.tla: %s = FALSE" % m, True, rmu.violation)
     print("selftest " + ("ok" if ok else "FAILED"), flush=True)
     return 0 if ok else 2
